@@ -1,6 +1,7 @@
 package main
 
 import (
+	"bytes"
 	"fmt"
 	"math/big"
 	"strings"
@@ -522,6 +523,36 @@ func genC05(e *emitter, r *rng, thorough bool) {
 		if yp.BitLen() <= 256 {
 			e.emit("parse.u-aliasy", "parsepub "+hx(append(append([]byte{4}, u[1:33]...), pad32(yp.Bytes())...)))
 		}
+		for _, pre := range []byte{6, 7} { // hybrid: both parity prefixes
+			if xp.BitLen() <= 256 {
+				e.emit("parse.h-aliasx", "parsepub "+hx(append(append([]byte{pre}, pad32(xp.Bytes())...), u[33:]...)))
+			}
+			if yp.BitLen() <= 256 {
+				e.emit("parse.h-aliasy", "parsepub "+hx(append(append([]byte{pre}, u[1:33]...), pad32(yp.Bytes())...)))
+			}
+		}
+	}
+	// points with a coordinate below 2^256 - P, so that coordinate + P still fits 32 bytes: every format with the aliased
+	// coordinate must be refused
+	for _, p := range rarePoints(r, 1) {
+		for ci, cv := range []*big.Int{p.x, p.y} {
+			al := new(big.Int).Add(cv, curveP)
+			if al.BitLen() > 256 {
+				continue
+			}
+			xb, yb := pad32(p.x.Bytes()), pad32(p.y.Bytes())
+			if ci == 0 {
+				xb = pad32(al.Bytes())
+			} else {
+				yb = pad32(al.Bytes())
+			}
+			for _, pre := range []byte{4, 6, 7} {
+				e.emit(fmt.Sprintf("parse.rare-alias.%d", ci), "parsepub "+hx(append(append([]byte{pre}, xb...), yb...)))
+			}
+			if ci == 0 {
+				e.emit("parse.rare-alias.c", "parsepub "+hx(append([]byte{2 + byte(p.y.Bit(0))}, xb...)))
+			}
+		}
 	}
 	// small on-curve x values, aliased by +P (the compressed-branch range check)
 	cnt := 0
@@ -624,6 +655,19 @@ func hashPool(r *rng, n int) [][]byte {
 		hs = append(hs, pad32(v.Bytes()))
 	}
 	hs = append(hs, append(pad32(curveN.Bytes()), 1, 2, 3))
+	// short and long hashes at the extremes of their length: all ones (above N's leading bytes when compared as byte
+	// strings, below N as numbers when shorter than 32 bytes), N's own leading bytes, all zero
+	nb := pad32(curveN.Bytes())
+	for _, l := range []int{1, 8, 15, 16, 17, 20, 24, 28, 31, 33, 40, 64} {
+		ff := bytes.Repeat([]byte{0xff}, l)
+		hs = append(hs, ff, make([]byte, l))
+		if l < 32 {
+			hs = append(hs, append([]byte{}, nb[:l]...))
+			x := append([]byte{}, nb[:l]...)
+			x[l-1]++
+			hs = append(hs, x)
+		}
+	}
 	for i := 0; i < n; i++ {
 		hs = append(hs, r.bytes(32))
 	}
@@ -791,6 +835,15 @@ func genC03(e *emitter, r *rng, thorough bool) {
 		construct("cons.double", modN(new(big.Int).Mul(u2, d)), u2)                     // u1 G = u2 Q
 		construct("cons.infinity", modN(new(big.Int).Neg(new(big.Int).Mul(u2, d))), u2) // u1 G = -u2 Q
 		construct("cons.e0", new(big.Int), u2)                                          // e = 0: first product is infinity
+		// ... and the other spellings of the digest e = 0 (empty, one zero byte, 31, 33 and 64 zero bytes) and of e = 1
+		if x2, _ := bec.S256().ScalarMult(q.x, q.y, u2.Bytes()); modN(x2).Sign() != 0 {
+			rr := modN(x2)
+			ss := modN(new(big.Int).Mul(rr, invN(u2)))
+			for _, l := range []int{0, 1, 31, 33, 64} {
+				emitV(fmt.Sprintf("cons.e0.len%d", l), q, make([]byte, l), rr, ss)
+				emitV(fmt.Sprintf("cons.e0.len%d.twin", l), q, make([]byte, l), rr, new(big.Int).Sub(curveN, ss))
+			}
+		}
 		construct("cons.u1=1", one, u2)
 		// u2 (the multiplier of the public key: the GLV/NAF path) from the structured scalar pool of the curve stream:
 		// +-t*lambda (degenerate split), boundary values, single bits, runs of ones, ...
@@ -1158,6 +1211,12 @@ func genC14(e *emitter, r *rng, thorough bool) {
 		}
 		if i%5 == 1 {
 			net = 0xef
+		}
+		if i%10 == 2 {
+			net = 0 // zero is a network byte like any other
+		}
+		if i%10 == 7 {
+			net = 0xff
 		}
 		for _, c := range []string{"0", "1"} {
 			e.emit("wif.enc", fmt.Sprintf("wif.enc %s %s %d", nhx(d), c, net))
